@@ -279,7 +279,18 @@ def fam_chunk(seed, n, tag="chunk"):
                 for fill in (b"0", b"f"):
                     out.append(("A", "%s.b%d.%s%s" % (tag, nd, lead.decode(), fill.decode()), "c", 0, 0, 0,
                                 lead + fill * (nd - 1) + b"\r\n"))
+    # all 256 byte values at every position of a few chunk-size lines (every grammatical position: first
+    # digit, later digit, after whitespace, in the extension, after CR), followed by nothing / a line end
+    for mi, msg in enumerate(CHUNK_SEEDMSG):
+        for pos in range(len(msg) + 1):
+            for v in range(256):
+                out.append(("A", "%s.p%d.%d.%d" % (tag, mi, pos, v), "c", 0, 0, 0, msg[:pos] + bytes([v]) + msg[pos + 1:]))
+                if pos < len(msg):
+                    out.append(("A", "%s.i%d.%d.%d" % (tag, mi, pos, v), "c", 0, 0, 0, msg[:pos] + bytes([v]) + msg[pos:]))
     return out
+
+
+CHUNK_SEEDMSG = (b"1a;x=y\r\n", b"F \t\r\n", b"0\r\n", b"9 ;q\r\n")
 
 
 CHUNK_ALPHABET = b"09afAFg; \t\r\n\x00x"
@@ -371,10 +382,16 @@ def adversarial(seed, sizes, tag="adv"):
             "foldblank": (b"HTTP/1.1 200 OK\r\nA: b" + b"\r\n " * (n // 3) + b"\r\n\r\n", "p", 2),
             "foldtabs": (b"HTTP/1.1 200 OK\r\nA: b" + b"\r\n\t \t" * (n // 5) + b"\r\nB: c\r\n\r\n", "p", 2),
             "trailws": (b"A: b" + b" \t" * (n // 2) + b"\r\n\r\n", "h", 0),
+            # parse_chunk_size: long extensions, runs of ';', whitespace, with and without the final CR LF
+            "chunkext": (b"1a;" + b"x" * n + b"\r\n", "c", 0),
+            "chunksemi": (b"1" + b";" * n + b"\r\n", "c", 0),
+            "chunksemiws": (b"1 " + b"; \t" * (n // 3) + b"\r\n", "c", 0),
+            "chunkws": (b"1" + b" \t" * (n // 2) + b"\r\n", "c", 0),
+            "chunkpart": (b"1;" + b";x" * (n // 2), "c", 0),
         }
         for name, (b, kind, cfg) in fams.items():
             cap = 0 if name == "many" and n > 4096 else 8
-            out.append(("A", "%s.%s.%d" % (tag, name, n), kind, 0 if kind == "h" else 1, cfg, cap, b))
+            out.append(("A", "%s.%s.%d" % (tag, name, n), kind, 0 if kind in "hc" else 1, cfg, 0 if kind == "c" else cap, b))
             if name == "many":
                 out.append(("A", "%s.%s.%d.big" % (tag, name, n), kind, 1, cfg, min(4000, n // 6 + 1), b))
     return out
